@@ -963,12 +963,54 @@ func c47Sync(sy *syncer, run *c47Run, root common.Hash, bound time.Duration) c47
 				lastServed, lastMove = n, time.Now()
 			}
 			if time.Now().After(deadline) || time.Since(lastMove) > 90*time.Second {
+				if c47StackDumps.Add(1) <= 2 {
+					buf := make([]byte, 1<<20)
+					buf = buf[:runtime.Stack(buf, true)]
+					fmt.Printf("=== C47 stall: goroutines at the time of the stall (served=%d) ===\n%s\n%s\n=== end of stall dump ===\n", run.served.Load(), buf, c47DumpSyncer(sy))
+				}
 				run.cancelOnce.Do(func() { close(run.cancel) })
 				err := <-done
 				return c47Outcome{err: err, stalled: true}
 			}
 		}
 	}
+}
+
+// c47DumpSyncer renders the scheduler state of a (stalled, hence quiescent) syncer.
+func c47DumpSyncer(s *syncer) string {
+	var sb strings.Builder
+	s.lock.RLock()
+	defer s.lock.RUnlock()
+	fmt.Fprintf(&sb, "syncer: snapped=%v tasks=%d peers=%d stateless=%v\n idlers: acc=%v sto=%v code=%v heal=%v healcode=%v\n reqs: acc=%d sto=%d code=%d heal=%d healcode=%d\n",
+		s.snapped, len(s.tasks), len(s.peers), s.statelessPeers, s.accountIdlers, s.storageIdlers, s.bytecodeIdlers, s.trienodeHealIdlers, s.bytecodeHealIdlers,
+		len(s.accountReqs), len(s.storageReqs), len(s.bytecodeReqs), len(s.trienodeHealReqs), len(s.bytecodeHealReqs))
+	if s.healer != nil {
+		fmt.Fprintf(&sb, " healer: pending=%d trieTasks=%d codeTasks=%d throttle=%v pend=%d\n", s.healer.scheduler.Pending(), len(s.healer.trieTasks), len(s.healer.codeTasks), s.trienodeHealThrottle, s.trienodeHealPend.Load())
+	}
+	for i, t := range s.tasks {
+		fmt.Fprintf(&sb, " task %d: next=%x last=%x req=%v res=%v pend=%d done=%v codeTasks=%d stateTasks=%d subTasks=%d stateCompleted=%d\n", i, t.Next[:4], t.Last[:4], t.req != nil, t.res != nil, t.pend, t.done, len(t.codeTasks), len(t.stateTasks), len(t.SubTasks), len(t.stateCompleted))
+		if t.res != nil {
+			nc, ns, nh := 0, 0, 0
+			for j := range t.res.hashes {
+				if t.needCode[j] {
+					nc++
+				}
+				if t.needState[j] {
+					ns++
+				}
+				if t.needHeal[j] {
+					nh++
+				}
+			}
+			fmt.Fprintf(&sb, "   res: %d accounts cont=%v needCode=%d needState=%d needHeal=%d\n", len(t.res.hashes), t.res.cont, nc, ns, nh)
+		}
+		for acc, subs := range t.SubTasks {
+			for _, st := range subs {
+				fmt.Fprintf(&sb, "   subtask %x: next=%x last=%x req=%v done=%v\n", acc[:4], st.Next[:4], st.Last[:4], st.req != nil, st.done)
+			}
+		}
+	}
+	return sb.String()
 }
 
 func c47GenScript(rt *rapid.T, label string, anchor bool, maxDrops *int) [4][]int {
@@ -1014,6 +1056,7 @@ func c47ScriptString(s [4][]int) string {
 
 var c47Stalls, c47Cases atomic.Int64
 var c47Slow atomic.Value
+var c47StackDumps atomic.Int64
 
 func TestVerifC47SyncV1(t *testing.T) {
 	st := vs.New("C47", t)
